@@ -132,10 +132,10 @@ theorem C04_reader_alignment_cz {π : Type} (startyear cap : Nat) (recs : List (
         ∃ q ∈ recs, q.year = r.year ∧ ms.store.maxAt (r.year - firstYear startyear recs) = q.doy :=
   readMulti_aligned startyear cap recs hv hg
 
-/-- **Alignment, layout 0** (`WetterK`): a year file with the lines of days 1 … n (1 ≤ n ≤ 366) is
+/-- **Alignment, layout 0** (`WetterK`): a year file with the lines of days 1 … n (1 ≤ n ≤ days of that year) is
 read without error, line T is in slot `[0][T − 1]`, `JAR[0]` is the year and `MaxYearDays[0] = n`. -/
 theorem C04_reader_alignment_yearfile {π : Type} (year : Nat) (st : Store π) (vals : List π)
-    (hne : vals ≠ []) (hn : vals.length ≤ 366) :
+    (hne : vals ≠ []) (hn : vals.length ≤ daysInYear year) :
     (readYearFile year st (some (numberFrom 1 vals))).2 = YStatus.ok ∧
     (readYearFile year st (some (numberFrom 1 vals))).1.jarAt 0 = year ∧
     (vals ≠ [] → (readYearFile year st (some (numberFrom 1 vals))).1.maxAt 0 = vals.length) ∧
@@ -148,7 +148,16 @@ theorem C04_reader_rejects_gap {π : Type} (startyear cap : Nat) (s : MState π)
     (r : Rec π) (rest : List (Rec π)) (hy : startyear ≤ r.year) (h1 : r.doy ≠ 1) (hg : r.doy ≠ s.T + 1) :
     readMultiFrom startyear cap s (r :: rest) = none := by
   have : ¬ r.year < startyear := by omega
-  simp [readMultiFrom, multiStep, advance, hs, this, h1, hg]
+  cases hb : r.bad
+  · simp [readMultiFrom, multiStep, advance, hb, hs, this, h1, hg]
+  · simp [readMultiFrom, multiStep_bad_date startyear cap s r hb]
+
+/-- **A date that does not parse is an error**: a line whose date token `time.Parse` rejects makes
+the multi-year readers return an error — in every state, before or after the start year; it is
+never skipped, and no later line can take its place. -/
+theorem C04_unparsable_date_is_error {π : Type} (startyear cap : Nat) (s : MState π) (r : Rec π)
+    (rest : List (Rec π)) (hb : r.bad = true) : readMultiFrom startyear cap s (r :: rest) = none := by
+  simp [readMultiFrom, multiStep_bad_date startyear cap s r hb]
 
 /-- **Gap detection at the year switch, multi-year layouts**: a 1 January is accepted only directly
 after 31 December of the year before — if the year slot in use holds year `ly` up to day `ld`, a
@@ -170,14 +179,25 @@ theorem C04_reader_rejects_gap_before_jan1 {π : Type} (startyear cap : Nat) (s 
     · by_cases e : ly = r.year - 1
       · subst e; simp [h]
       · simp [e]
-  simp [readMultiFrom, multiStep_bad_switch startyear cap s r hns hs h1 hsw]
+  cases hb : r.bad
+  · simp [readMultiFrom, multiStep_bad_switch startyear cap s r hb hns hs h1 hsw]
+  · simp [readMultiFrom, multiStep_bad_date startyear cap s r hb]
 
 /-- **Gap detection, layout 0**: a line whose day number is not the previous one plus one (in
 particular a file that does not start with day 1) stops `WetterK` with its error … -/
-theorem C04_yearfile_rejects_gap {π : Type} (st : Store π) (tlast T : Nat) (v : π) (rest : List (Nat × π))
-    (hg : T ≠ tlast + 1) : (readYearLines st tlast ((T, v) :: rest)).2 = YStatus.gap := by
+theorem C04_yearfile_rejects_gap {π : Type} (year : Nat) (st : Store π) (tlast T : Nat) (v : π)
+    (rest : List (Nat × π)) (hg : T ≠ tlast + 1) :
+    (readYearLines year st tlast ((T, v) :: rest)).2 = YStatus.gap := by
   have : ¬ tlast + 1 = T := fun h => hg h.symm
   simp [readYearLines, this]
+
+/-- **A day number beyond the end of the year is an error** (layout 0): a line numbered 366 in the
+file of a 365-day year (or 367 in any year) stops `WetterK` with an error; `MaxYearDays` — hence
+`JTAG` — never exceeds the length of the calendar year. -/
+theorem C04_yearfile_rejects_day_beyond_year_end {π : Type} (year : Nat) (st : Store π) (tlast T : Nat)
+    (v : π) (rest : List (Nat × π)) (hc : T = tlast + 1) (hb : T > daysInYear year) :
+    (readYearLines year st tlast ((T, v) :: rest)).2 = YStatus.beyond := by
+  simp [readYearLines, hc.symm, hb]
 
 /-- … and so does a year file without a data line. -/
 theorem C04_yearfile_rejects_empty {π : Type} (year : Nat) (st : Store π) :
@@ -267,7 +287,7 @@ theorem C04_short_year_is_error {π : Type} (src : Source π) (n : Nat) (st : DS
 date and nothing checks the slots before it. Witness: the file starts on 3 January 1981, the run
 on 1 January 1981: no error, 1 and 2 January consume never-written slots (zero values). -/
 theorem C04_uncovered_start_same_year_fails_at :
-    ∃ days, runMulti [⟨1981, 3, 1⟩, ⟨1981, 4, 2⟩, ⟨1981, 5, 3⟩] 1981 1 (masdat 81 1 1) 1 3 = some days ∧
+    ∃ days, runMulti [⟨1981, 3, 1, false⟩, ⟨1981, 4, 2, false⟩, ⟨1981, 5, 3, false⟩] 1981 1 (masdat 81 1 1) 1 3 = some days ∧
       days.map (fun d => (d.zeit - masdat 81 1 1, d.j, d.tagNum, d.val)) =
         [(0, 81, 1, none), (1, 81, 2, none), (2, 81, 3, some 1)] := by
   refine ⟨_, rfl, ?_⟩; decide
@@ -343,20 +363,25 @@ example : (runDays (.multi 0) 3 ({ zeit := masdat 81 1 1 + 10, tagNum := 10, j :
     (fun ds => ds.map (fun d => (d.j, d.tagNum, d.jtag))) = some [(81, 11, 365), (81, 12, 365), (81, 13, 365)] := by decide
 -- StartYear 1980, first simulated day 1 January 1981, weather of both years present: error
 example : kalenderDate (masdat 81 1 1) = some (1981, 1, 1) := by decide
-example : (runMulti ([⟨1980, 366, 1⟩, ⟨1981, 1, 2⟩, ⟨1981, 2, 3⟩] : List (Rec Nat)) 1980 2 (masdat 81 1 1) 1 2).isNone = true := by decide
+example : (runMulti ([⟨1980, 366, 1, false⟩, ⟨1981, 1, 2, false⟩, ⟨1981, 2, 3, false⟩] : List (Rec Nat)) 1980 2 (masdat 81 1 1) 1 2).isNone = true := by decide
 -- a gap-free series across a year end that starts before the start year
-example : GapFree ([⟨1980, 366, 1⟩, ⟨1981, 1, 2⟩, ⟨1981, 2, 3⟩] : List (Rec Nat)) ∧
-    ∀ r ∈ ([⟨1980, 366, 1⟩, ⟨1981, 1, 2⟩, ⟨1981, 2, 3⟩] : List (Rec Nat)), ValidRec r := by decide
-example : firstYear 1981 ([⟨1980, 366, 1⟩, ⟨1981, 1, 2⟩, ⟨1981, 2, 3⟩] : List (Rec Nat)) = 1981 := by decide
+example : GapFree ([⟨1980, 366, 1, false⟩, ⟨1981, 1, 2, false⟩, ⟨1981, 2, 3, false⟩] : List (Rec Nat)) ∧
+    ∀ r ∈ ([⟨1980, 366, 1, false⟩, ⟨1981, 1, 2, false⟩, ⟨1981, 2, 3, false⟩] : List (Rec Nat)), ValidRec r := by decide
+example : firstYear 1981 ([⟨1980, 366, 1, false⟩, ⟨1981, 1, 2, false⟩, ⟨1981, 2, 3, false⟩] : List (Rec Nat)) = 1981 := by decide
 -- a gap inside a year is rejected
-example : (readCSV 1981 1 ([⟨1981, 1, 1⟩, ⟨1981, 3, 2⟩] : List (Rec Nat))).isNone = true := by decide
+example : (readCSV 1981 1 ([⟨1981, 1, 1, false⟩, ⟨1981, 3, 2, false⟩] : List (Rec Nat))).isNone = true := by decide
+-- a line whose date did not parse between 1 and 3 January: error (it used to be skipped and 3 January accepted)
+example : (readCSV 1981 1 ([⟨1981, 1, 1, false⟩, ⟨1, 1, 2, true⟩, ⟨1981, 3, 3, false⟩] : List (Rec Nat))).isNone = true := by decide
+-- a line numbered 366 in the year file of 1981: error
+example : (readYearFile 1981 ({} : Store Nat) (some (numberFrom 365 [7, 8]))).2 = YStatus.gap := by decide
+example : (readYearLines 1981 ({} : Store Nat) 364 (numberFrom 365 [7, 8])).2 = YStatus.beyond := by decide
 -- former witness F3b: 30 December followed by 1 January is rejected now
-example : (readCSV 1981 2 ([⟨1981, 363, 1⟩, ⟨1981, 364, 2⟩, ⟨1982, 1, 3⟩, ⟨1982, 2, 4⟩] : List (Rec Nat))).isNone = true := by decide
+example : (readCSV 1981 2 ([⟨1981, 363, 1, false⟩, ⟨1981, 364, 2, false⟩, ⟨1982, 1, 3, false⟩, ⟨1982, 2, 4, false⟩] : List (Rec Nat))).isNone = true := by decide
 -- former witness F3: file 1–3 January 1981, run 1–5 January 1981 ends with an error, in every layout
-example : (runMulti ([⟨1981, 1, 1⟩, ⟨1981, 2, 2⟩, ⟨1981, 3, 3⟩] : List (Rec Nat)) 1981 1 (masdat 81 1 1) 1 5).isNone = true := by decide
+example : (runMulti ([⟨1981, 1, 1, false⟩, ⟨1981, 2, 2, false⟩, ⟨1981, 3, 3, false⟩] : List (Rec Nat)) 1981 1 (masdat 81 1 1) 1 5).isNone = true := by decide
 example : (runPerYear (fun y => if y = 1981 then some [(1, 1), (2, 2), (3, 3)] else none) 1981 (masdat 81 1 1) 1 5).isNone = true := by decide
 -- former witness: the file starts a year after the run does
-example : (runMulti ([⟨1982, 1, 1⟩, ⟨1982, 2, 2⟩, ⟨1982, 3, 3⟩] : List (Rec Nat)) 1981 2 (masdat 81 1 1) 1 2).isNone = true := by decide
+example : (runMulti ([⟨1982, 1, 1, false⟩, ⟨1982, 2, 2, false⟩, ⟨1982, 3, 3, false⟩] : List (Rec Nat)) 1981 2 (masdat 81 1 1) 1 2).isNone = true := by decide
 -- former witness F4: sunshine missing on the last day of the first loaded year (2 days); adjacent
 -- days 2 and 4: the mean 3 is used
 example : ((replaceMissing (α := Int) (-99) [2, 3] 2
